@@ -170,9 +170,35 @@ pub fn check_term(s: &mut Sess, rep: &mut Report, t: RegLan, k: usize, small_pro
     }
 }
 
+/// after every term of the program went through failing and succeeding bounded compilations: the exact bound
+/// of each (small) term must still succeed and one less must still fail
+fn reask_bounds(s: &mut Sess, rep: &mut Report) {
+    for k in (0..s.run.terms.len()).rev() {
+        let t = s.run.terms[k];
+        let count = match closure_size(&mut s.m, t, 60) {
+            Some(n) => n,
+            None => continue,
+        };
+        rep.inc("bounds_reasked_after_history");
+        match guard(|| (s.m.try_compile(t, count).map(|a| a.num_states()), s.m.try_compile(t, count - 1).is_some())) {
+            Ok((at, below)) => {
+                if at != Some(count) || below {
+                    s.viol(rep, "bound", "bound:history-dependent", format!("asked again after other bounded compilations: try_compile({}, {}) gives {:?} states, try_compile(.., {}) is Some = {}; the expression has {} distinct derivatives", term_text(t), count, at, count - 1, below, count), k);
+                    return;
+                }
+            }
+            Err(msg) => {
+                s.viol(rep, "bound", "bound:panic", format!("try_compile panicked when asked again: {}", msg), k);
+                return;
+            }
+        }
+    }
+}
+
 pub fn check_program(prog: &Program, seed: u64, thorough: bool, small: bool, rep: &mut Report) {
     let c = cfg(thorough);
     let mut s = Sess::start(prog, seed, thorough, c.budget, c.noise, rep);
+    let before = rep.violation_count;
     for k in 0..s.run.terms.len() {
         let t = s.run.terms[k];
         let nontrivial = s.run.refs[k].size() >= 3;
@@ -186,9 +212,16 @@ pub fn check_program(prog: &Program, seed: u64, thorough: bool, small: bool, rep
         }
         check_term(&mut s, rep, t, k, small && narrow);
     }
+    if rep.violation_count == before {
+        reask_bounds(&mut s, rep);
+    }
 }
 
 pub fn run(p: &Params, rep: &mut Report) {
+    if p.shard == 4 {
+        let n = if p.thorough { super::scale::N_THOROUGH } else { super::scale::N_QUICK };
+        super::scale::c19(rep, n, p.seed);
+    }
     let stride = 1;
     for_tiny_programs(p, rep, stride, p.size(150, 3000), |prog, seed, rep| check_program(prog, seed, p.thorough, true, rep));
     let n = p.size(120, 1200);
@@ -203,6 +236,10 @@ pub fn run(p: &Params, rep: &mut Report) {
 }
 
 pub fn replay(kind: &str, text: &str, seed: u64, rep: &mut Report) -> bool {
+    if kind == "scale" {
+        super::scale::c19(rep, text.trim().parse().unwrap_or(super::scale::N_QUICK), seed);
+        return true;
+    }
     if kind != KIND_MGR {
         return false;
     }
